@@ -302,44 +302,105 @@ def gen_case1(rng, size, strict=None):
 # building partitura objects
 
 
-def build(case):
+def kind_of(kinds, what, v):
+    """The number v as the Python / numpy scalar kind the case asks for (None: plain Python int).
+    Narrow kinds are widened when the value does not fit, as a caller holding such an array would."""
+    k = (kinds or {}).get(what, "int")
+    if k == "int" or v is None:
+        return v
+    import numpy as np
+    if k == "int8" and not -128 <= v <= 127:
+        k = "int16"
+    if k == "uint8" and not 0 <= v <= 255:
+        k = "int32"
+    if k == "int16" and not -32768 <= v <= 32767:
+        k = "int32"
+    if k == "float":
+        return float(v)
+    if k == "0d":
+        return np.array(v)
+    return getattr(np, k)(v)
+
+
+def add_note_objects(part, pid, ni, n, kinds=None, tag=""):
+    """The Note objects of one described note (a chain of tied objects, or a grace note)."""
+    import partitura.score as S
+
+    T = lambda v: kind_of(kinds, "t", v)  # noqa: E731
+    voice = kind_of(kinds, "voice", n["voice"])
+    step, alter = PCS[n["pitch"] % 12]
+    octave = n["pitch"] // 12 - 1
+    if not n["durs"]:
+        g = S.GraceNote(grace_type="acciaccatura", step=step, alter=alter, octave=octave, voice=voice, id="%s-g%d%s" % (pid, ni, tag))
+        part.add(g, T(n["t"]), T(n["t"]))
+        return [g]
+    prev = None
+    t = n["t"]
+    chain = []
+    for k, d in enumerate(n["durs"]):
+        nt = S.Note(step=step, alter=alter, octave=octave, voice=voice, id="%s-n%d-%d%s" % (pid, ni, k, tag))
+        part.add(nt, T(t), T(t + d))
+        if prev is not None:
+            prev.tie_next = nt
+            nt.tie_prev = prev
+        prev = nt
+        chain.append(nt)
+        t += d
+    return chain
+
+
+def build_part(ps, kinds=None, maps=None):
+    import partitura.score as S
+
+    T = lambda v: kind_of(kinds, "t", v)  # noqa: E731
+    Q = lambda v: kind_of(kinds, "div", v)  # noqa: E731
+    part = S.Part(ps["id"], quarter_duration=Q(ps["qd"][0][1]))
+    for t, q in ps["qd"][1:]:
+        part.set_quarter_duration(T(t), Q(q))
+    for t, b, bt in ps["tsigs"]:
+        part.add(S.TimeSignature(b, bt), T(t))
+    kso, tpo = [], []
+    for t, f, m in ps["ksigs"]:
+        kso.append(S.KeySignature(f, m))
+        part.add(kso[-1], T(t))
+    for t, bpm in ps["tempi"]:
+        tpo.append(S.Tempo(bpm, unit="q"))
+        part.add(tpo[-1], T(t))
+    for i, (s, e) in enumerate(ps["measures"]):
+        part.add(S.Measure(number=i + 1), T(s), T(e))
+    chains = [add_note_objects(part, ps["id"], ni, n, kinds) for ni, n in enumerate(ps["notes"])]
+    if maps is not None:
+        maps["notes"], maps["ksigs"], maps["tempi"] = chains, kso, tpo
+    return part
+
+
+def build(case, maps=None):
+    """Part objects and the top-level structure of a description.  `maps` (a list, one dict per part)
+    receives the objects made for every described note / key signature / tempo.  A part listed in
+    case['detached'] (it was put into a Score by `score[i] = part`) is not a child of its former
+    group: a stale stand-in holding one note sits there (see make_data)."""
     import partitura.score as S
 
     parts = []
+    kinds = case.get("kinds")
     for ps in case["parts"]:
-        part = S.Part(ps["id"], quarter_duration=ps["qd"][0][1])
-        for t, q in ps["qd"][1:]:
-            part.set_quarter_duration(t, q)
-        for t, b, bt in ps["tsigs"]:
-            part.add(S.TimeSignature(b, bt), t)
-        for t, f, m in ps["ksigs"]:
-            part.add(S.KeySignature(f, m), t)
-        for t, bpm in ps["tempi"]:
-            part.add(S.Tempo(bpm, unit="q"), t)
-        for i, (s, e) in enumerate(ps["measures"]):
-            part.add(S.Measure(number=i + 1), s, e)
-        for ni, n in enumerate(ps["notes"]):
-            step, alter = PCS[n["pitch"] % 12]
-            octave = n["pitch"] // 12 - 1
-            if not n["durs"]:
-                g = S.GraceNote(grace_type="acciaccatura", step=step, alter=alter, octave=octave, voice=n["voice"], id="%s-g%d" % (ps["id"], ni))
-                part.add(g, n["t"], n["t"])
-                continue
-            prev = None
-            t = n["t"]
-            for k, d in enumerate(n["durs"]):
-                nt = S.Note(step=step, alter=alter, octave=octave, voice=n["voice"], id="%s-n%d-%d" % (ps["id"], ni, k))
-                part.add(nt, t, t + d)
-                if prev is not None:
-                    prev.tie_next = nt
-                    nt.tie_prev = prev
-                prev = nt
-                t += d
-        parts.append(part)
+        m = {} if maps is not None else None
+        parts.append(build_part(ps, kinds, m))
+        if maps is not None:
+            maps.append(m)
+    detached = set(case.get("detached", []))
+
+    def stale(i):
+        ps = case["parts"][i]
+        p = S.Part(ps["id"], quarter_duration=ps["qd"][0][1])
+        p.add(S.TimeSignature(ps["tsigs"][0][1], ps["tsigs"][0][2]), 0)
+        p.add(S.Measure(number=1), ps["measures"][0][0], ps["measures"][0][1])
+        p.add(S.Note(step="C", octave=1, voice=1, id="stale"), ps["measures"][0][0], ps["measures"][0][1])
+        return p
 
     def mk(node):
         if isinstance(node, int):
-            return parts[node]
+            return stale(node) if node in detached else parts[node]
         g = S.PartGroup(group_name="G")
         g.children = [mk(x) for x in node]
         for c in g.children:
@@ -366,6 +427,8 @@ def group_ids(case):
             out[node] = 1000 + node
         else:
             walk(node, 2000 + gi)
+    for i in case.get("detached", []):
+        out[i] = 1000 + i  # put into the Score by `score[i] = part`: no parent
     return [out[i] for i in range(len(case["parts"]))]
 
 
@@ -446,31 +509,34 @@ def read_messages(mf):
     return tracks
 
 
-def run_impl(case, workdir):
-    """Returns dict with observed data or {'error': ...}."""
-    import io
-    import mido
-    import warnings
+def make_data(case, parts, top):
+    """The score_data argument: Score / list / bare Part / bare PartGroup."""
     import partitura.score as S
-    from partitura.io.exportmidi import save_score_midi
-    from partitura.io.importmidi import load_score_midi, load_performance_midi
 
-    warnings.filterwarnings("ignore")
-    parts, top = build(case)
     cont = case["container"]
     if cont == "score":
         data = S.Score(partlist=top, id="c04")
-    elif cont in ("part", "group"):
-        data = top[0]  # a bare Part / PartGroup
-    else:
-        data = top
-    kw = dict(part_voice_assign_mode=case["mode"], velocity=case["velocity"],
-              anacrusis_behavior=case["anacrusis"], minimum_ppq=case["minimum_ppq"])
+        for i in case.get("detached", []):
+            data.parts[i] = parts[i]  # the state `score[i] = part` leaves: flat list updated, structure stale
+        return data
+    if cont in ("part", "group"):
+        return top[0]  # a bare Part / PartGroup
+    return top
+
+
+def do_export(data, case, workdir, tag=""):
+    """save_score_midi with the configuration of the case.  Returns (MidiFile, source for the importers, error)."""
+    import io
+    import mido
+    from partitura.io.exportmidi import save_score_midi
+
+    ck = case.get("kinds")
+    kw = dict(part_voice_assign_mode=kind_of(ck, "mode", case["mode"]), velocity=kind_of(ck, "velocity", case["velocity"]),
+              anacrusis_behavior=case["anacrusis"], minimum_ppq=kind_of(ck, "minimum_ppq", case["minimum_ppq"]))
     out = case.get("out", "path" if case.get("to_file") else "none")
-    obs = {}
     try:
         if out == "path":
-            path = os.path.join(workdir, "c04_case_%d.mid" % os.getpid())
+            path = os.path.join(workdir, "c04_case_%d%s.mid" % (os.getpid(), tag))
             r = save_score_midi(data, path, **kw)
             mf = mido.MidiFile(path)
             src = path
@@ -484,51 +550,78 @@ def run_impl(case, workdir):
             r = None
             src = mf
         if out != "none" and r is not None:
-            return {"error": "save_score_midi returned %r although an output was given" % (r,)}, parts
+            return None, None, "save_score_midi returned %r although an output was given" % (r,)
         if not isinstance(mf, mido.MidiFile):
-            return {"error": "save_score_midi(out=None) returned %r, not a MidiFile" % (mf,)}, parts
+            return None, None, "save_score_midi(out=None) returned %r, not a MidiFile" % (mf,)
     except Exception as e:  # noqa
-        return {"error": "save_score_midi raised %s: %s" % (type(e).__name__, e)}, parts
-    obs["ppq"] = int(mf.ticks_per_beat)
-    obs["tracks"] = read_messages(mf)
-    # import as a score
-    try:
-        sc = load_score_midi(src, part_voice_assign_mode=case["mode"])
-        inotes, igroups, its, iks, itempo = [], [], [], [], []
-        top_of = {}
-        for gi, node in enumerate(sc.part_structure):
-            for p in S.iter_parts([node]):
-                top_of[p.id] = gi if isinstance(node, S.PartGroup) else -1
-        again = []
-        for p in sc.parts:
-            pn = int(p.id[1:]) - 1
-            igroups.append((pn, top_of[p.id]))
-            qd = p.quarter_durations()
-            divs = [int(x) for x in qd[:, 1]]
-            na = p.note_array()
-            for r in na:
-                inotes.append((pn, int(r["voice"]), int(r["onset_div"]), int(r["duration_div"]), int(r["pitch"])))
-            obs.setdefault("idivs", []).append(divs)
-            for ts in p.iter_all(S.TimeSignature):
-                its.append((pn, int(ts.start.t), int(ts.beats), int(ts.beat_type)))
-            for ks in p.iter_all(S.KeySignature):
-                iks.append((pn, int(ks.start.t), int(ks.fifths), str(ks.mode)))
-            for tp in p.iter_all(S.Tempo):
-                itempo.append((pn, int(tp.start.t), float(tp.bpm), str(tp.unit)))
-            # the imported part is a score as well (one divisions value, ties over barlines made by
-            # tie_notes): export it once more, on its own, and read the ticks of its notes
-            try:
-                mf2 = save_score_midi(p, None, part_voice_assign_mode=0, velocity=case["velocity"], anacrusis_behavior="shift")
-                again.append((pn, int(mf2.ticks_per_beat), file_notes([absolute(tr) for tr in read_messages(mf2)])[0]))
-            except Exception as e:  # noqa
-                again.append((pn, -1, "save_score_midi of the imported part raised %s: %s" % (type(e).__name__, e)))
-        obs["inotes"], obs["igroups"], obs["its"], obs["iks"], obs["itempo"] = inotes, igroups, its, iks, itempo
-        obs["again"] = again
-    except Exception as e:  # noqa
-        obs["import_error"] = "load_score_midi raised %s: %s" % (type(e).__name__, e)
-    # the same file with every note_off written as a note_on with velocity 0 (equivalent MIDI): both
-    # importers must read the same notes
-    if case.get("zero_velocity_offs"):
+        return None, None, "save_score_midi raised %s: %s" % (type(e).__name__, e)
+    return mf, src, None
+
+
+def run_impl(case, workdir):
+    """Returns dict with observed data or {'error': ...}."""
+    import warnings
+
+    warnings.filterwarnings("ignore")
+    parts, top = build(case)
+    data = make_data(case, parts, top)
+    mf, src, err = do_export(data, case, workdir)
+    if err:
+        return {"error": err}, parts
+    obs = {"ppq": int(mf.ticks_per_beat), "tracks": read_messages(mf)}
+    observe_import(case, mf, src, obs)
+    return obs, parts
+
+
+def observe_import(case, mf, src, obs, order=("score", "zv", "perf")):
+    """Reads the written file with load_score_midi / load_performance_midi (the calls in the given order)."""
+    import mido
+    import partitura.score as S
+    from partitura.io.exportmidi import save_score_midi
+    from partitura.io.importmidi import load_score_midi, load_performance_midi
+
+    def imp_score():
+        # import as a score
+        try:
+            sc = load_score_midi(src, part_voice_assign_mode=kind_of(case.get("kinds"), "mode", case["mode"]))
+            inotes, igroups, its, iks, itempo = [], [], [], [], []
+            top_of = {}
+            for gi, node in enumerate(sc.part_structure):
+                for p in S.iter_parts([node]):
+                    top_of[p.id] = gi if isinstance(node, S.PartGroup) else -1
+            again = []
+            for p in sc.parts:
+                pn = int(p.id[1:]) - 1
+                igroups.append((pn, top_of[p.id]))
+                qd = p.quarter_durations()
+                divs = [int(x) for x in qd[:, 1]]
+                na = p.note_array()
+                for r in na:
+                    inotes.append((pn, int(r["voice"]), int(r["onset_div"]), int(r["duration_div"]), int(r["pitch"])))
+                obs.setdefault("idivs", []).append(divs)
+                for ts in p.iter_all(S.TimeSignature):
+                    its.append((pn, int(ts.start.t), int(ts.beats), int(ts.beat_type)))
+                for ks in p.iter_all(S.KeySignature):
+                    iks.append((pn, int(ks.start.t), int(ks.fifths), str(ks.mode)))
+                for tp in p.iter_all(S.Tempo):
+                    itempo.append((pn, int(tp.start.t), float(tp.bpm), str(tp.unit)))
+                # the imported part is a score as well (one divisions value, ties over barlines made by
+                # tie_notes): export it once more, on its own, and read the ticks of its notes
+                try:
+                    mf2 = save_score_midi(p, None, part_voice_assign_mode=0, velocity=case["velocity"], anacrusis_behavior="shift")
+                    again.append((pn, int(mf2.ticks_per_beat), file_notes([absolute(tr) for tr in read_messages(mf2)])[0]))
+                except Exception as e:  # noqa
+                    again.append((pn, -1, "save_score_midi of the imported part raised %s: %s" % (type(e).__name__, e)))
+            obs["inotes"], obs["igroups"], obs["its"], obs["iks"], obs["itempo"] = inotes, igroups, its, iks, itempo
+            obs["again"] = again
+        except Exception as e:  # noqa
+            obs["import_error"] = "load_score_midi raised %s: %s" % (type(e).__name__, e)
+
+    def imp_zv():
+        # the same file with every note_off written as a note_on with velocity 0 (equivalent MIDI): both
+        # importers must read the same notes
+        if not case.get("zero_velocity_offs"):
+            return
         try:
             mz = mido.MidiFile(type=mf.type, ticks_per_beat=mf.ticks_per_beat)
             for tr in mf.tracks:
@@ -547,18 +640,23 @@ def run_impl(case, workdir):
                                  int(n["velocity"])) for pp in pz.performedparts for n in pp.notes]
         except Exception as e:  # noqa
             obs["zv_error"] = "importing the file with zero-velocity note offs raised %s: %s" % (type(e).__name__, e)
-    # import as a performance
-    try:
-        pf = load_performance_midi(src)
-        pnotes = []
-        for pp in pf.performedparts:
-            for n in pp.notes:
-                pnotes.append((int(n["track"]), int(n["channel"]), int(n["note_on_tick"]), int(n["note_off_tick"]),
-                               int(n["midi_pitch"]), int(n["velocity"])))
-        obs["pnotes"] = pnotes
-    except Exception as e:  # noqa
-        obs["perf_error"] = "load_performance_midi raised %s: %s" % (type(e).__name__, e)
-    return obs, parts
+
+    def imp_perf():
+        # import as a performance
+        try:
+            pf = load_performance_midi(src)
+            pnotes = []
+            for pp in pf.performedparts:
+                for n in pp.notes:
+                    pnotes.append((int(n["track"]), int(n["channel"]), int(n["note_on_tick"]), int(n["note_off_tick"]),
+                                   int(n["midi_pitch"]), int(n["velocity"])))
+            obs["pnotes"] = pnotes
+        except Exception as e:  # noqa
+            obs["perf_error"] = "load_performance_midi raised %s: %s" % (type(e).__name__, e)
+
+    todo = {"score": imp_score, "zv": imp_zv, "perf": imp_perf}
+    for name in order:
+        todo[name]()
 
 
 def file_notes(abs_tracks):
@@ -1011,6 +1109,553 @@ def oracle_grouping(case, exp_notes, obs):
     return []
 
 
+# ----------------------------------------------------------------------------
+# history stream: state carried between calls
+#
+# A world is a description (as above) plus the live objects built from it once.  Edit ops change the
+# live objects through the public API or in place AND the description (a pure function, edit_desc);
+# observation ops call save_score_midi on the live objects (and the importers on the files written so
+# far) and are judged against the CURRENT description only: by the oracle above, and by the same
+# export on objects freshly built from the current description.
+
+HQ = [5, 7, 9, 10, 3, 6, 12, 24, 48, 16, 20]
+K_DIV = ["int", "int8", "int8", "int16", "int32", "int64", "uint8"]
+K_T = ["int", "int16", "int32", "int64"]
+K_CFG = ["int", "int", "int64", "int32", "uint8", "int16"]
+K_MIN = ["int", "int64", "int32", "float", "0d", "int16"]
+
+
+def _chain_of(ps, k):
+    return ps["notes"][k % len(ps["notes"])] if ps["notes"] else None
+
+
+def edit_desc(case, op):
+    """The description after an edit op; None when the op does not apply or would leave the
+    property's quantifier (equal-pitch overlap) / the harness's assumptions."""
+    c = json.loads(json.dumps(case))
+    kind = op["op"]
+    if op["p"] >= len(c["parts"]):
+        return None
+    ps = c["parts"][op["p"]]
+    if kind in ("voice", "pitch", "remove", "untie"):
+        if not ps["notes"]:
+            return None
+        k = op["n"] % len(ps["notes"])
+        n = ps["notes"][k]
+        if kind == "voice":
+            if n["voice"] == op["v"]:
+                return None
+            n["voice"] = op["v"]
+        elif kind == "pitch":
+            if n["pitch"] == op["pitch"]:
+                return None
+            n["pitch"] = op["pitch"]
+        elif kind == "remove":
+            ps["notes"].pop(k)
+        else:
+            if len(n["durs"]) < 2:
+                return None
+            j = 1 + op["j"] % (len(n["durs"]) - 1)
+            first = {"t": n["t"], "durs": n["durs"][:j], "pitch": n["pitch"], "voice": n["voice"]}
+            second = {"t": n["t"] + sum(n["durs"][:j]), "durs": n["durs"][j:], "pitch": n["pitch"], "voice": n["voice"]}
+            ps["notes"][k] = first
+            ps["notes"].insert(k + 1, second)  # next to the first: the objects keep their insertion order
+    elif kind == "add":
+        if not ps["notes"]:
+            return None
+        src = ps["notes"][op["src"] % len(ps["notes"])]
+        ps["notes"].append({"t": src["t"], "durs": list(src["durs"]), "pitch": op["pitch"], "voice": op["v"]})
+    elif kind == "ksig":
+        if not ps["ksigs"]:
+            return None
+        ks = ps["ksigs"][op["i"] % len(ps["ksigs"])]
+        if (ks[1], ks[2]) == (op["f"], op["m"]):
+            return None
+        ks[1], ks[2] = op["f"], op["m"]
+    elif kind == "tempo":
+        if not ps["tempi"]:
+            return None
+        tp = ps["tempi"][op["i"] % len(ps["tempi"])]
+        if tp[1] == op["bpm"]:
+            return None
+        tp[1] = op["bpm"]
+    elif kind == "qd_end":
+        t_end = ps["measures"][-1][1]
+        if ps["qd"][-1][0] >= t_end or ps["qd"][-1][1] == op["q"]:
+            return None
+        ps["qd"].append([t_end, op["q"]])
+    elif kind == "qd_scale":
+        if ps["qd"][0][1] == op["q"] or (len(ps["qd"]) > 1 and ps["qd"][1][1] == op["q"]):
+            return None
+        ps["qd"][0][1] = op["q"]
+        c["no_tsc"] = True  # measures of this part are no longer whole beats: time_sig_change is outside the oracle
+    elif kind == "replace":
+        if c["container"] == "part":
+            return None
+        for sub in op["edits"]:
+            c2 = edit_desc(c, dict(sub, p=op["p"]))
+            if c2 is not None:
+                c = c2
+        if c["container"] == "score" and op["p"] not in c["structure"]:
+            c["detached"] = sorted(set(c.get("detached", [])) | {op["p"]})
+    else:
+        return None
+    if not any(q["notes"] for q in c["parts"]):
+        return None
+    if not respects_quantifier(dict(c, mode=4)):
+        return None
+    return c
+
+
+class World:
+    def __init__(self, case):
+        self.case = json.loads(json.dumps(case))
+        self.maps = []
+        self.parts, self.top = build(self.case, self.maps)
+        self.data = make_data(self.case, self.parts, self.top)
+        self.files = []
+        self.fresh_ids = 0
+        # for the Coq history machine (Model/C04_hist.v): initial quarter durations, the edits that touch
+        # them, and what every export saw
+        self.log0 = live_qds(self.data)
+        self.log = []
+
+
+def live_qds(data):
+    """quarter_durations() of the parts save_score_midi iterates over, in its order."""
+    import partitura.score as S
+
+    parts = data.parts if isinstance(data, S.Score) else (data if isinstance(data, list) else [data])
+    return [[(int(t), int(q)) for t, q in p.quarter_durations()] for p in S.iter_parts(parts)]
+
+
+def edit_live(w, op, new_case):
+    """The same edit on the live objects: public API (add / remove / set_quarter_duration /
+    score[i] = part) or attributes in place."""
+    kind = op["op"]
+    pi = op["p"]
+    part = w.parts[pi]
+    m = w.maps[pi]
+    kinds = w.case.get("kinds")
+    ps_old = w.case["parts"][pi]
+    if kind in ("voice", "pitch", "remove", "untie"):
+        k = op["n"] % len(m["notes"])
+        chain = m["notes"][k]
+        if kind == "voice":
+            for o in chain:
+                o.voice = kind_of(kinds, "voice", op["v"])
+        elif kind == "pitch":
+            step, alter = PCS[op["pitch"] % 12]
+            for o in chain:
+                o.step, o.alter, o.octave = step, alter, op["pitch"] // 12 - 1
+        elif kind == "remove":
+            for o in chain:
+                part.remove(o)
+            m["notes"].pop(k)
+        else:
+            j = 1 + op["j"] % (len(chain) - 1)
+            chain[j - 1].tie_next = None
+            chain[j].tie_prev = None
+            m["notes"][k] = chain[:j]
+            m["notes"].insert(k + 1, chain[j:])
+    elif kind == "add":
+        w.fresh_ids += 1
+        n = new_case["parts"][pi]["notes"][-1]
+        m["notes"].append(add_note_objects(part, ps_old["id"], len(m["notes"]), n, kinds, tag="-h%d" % w.fresh_ids))
+    elif kind == "ksig":
+        o = m["ksigs"][op["i"] % len(m["ksigs"])]
+        o.fifths, o.mode = op["f"], op["m"]
+    elif kind == "tempo":
+        m["tempi"][op["i"] % len(m["tempi"])].bpm = op["bpm"]
+    elif kind == "qd_end":
+        part.set_quarter_duration(kind_of(kinds, "t", ps_old["measures"][-1][1]), kind_of(kinds, "div", op["q"]))
+        w.log.append("(HSetQD %s %s %s)" % (cz(pi), cz(ps_old["measures"][-1][1]), cz(op["q"])))
+    elif kind == "qd_scale":
+        part.set_quarter_duration(kind_of(kinds, "t", 0), kind_of(kinds, "div", op["q"]))
+        w.log.append("(HSetQD %s 0 %s)" % (cz(pi), cz(op["q"])))
+    elif kind == "replace":
+        import partitura.score as S
+
+        m2 = {}
+        new = build_part(new_case["parts"][pi], kinds, m2)
+        old = w.parts[pi]
+        cont = w.case["container"]
+        if cont == "score":
+            w.data[pi] = new                      # Score.__setitem__: the flat list only
+            if pi in w.case["structure"]:
+                w.top[w.top.index(old)] = new     # w.top is the list the Score was made from, not its part_structure
+        else:
+            g = old.parent
+            if g is None:
+                w.top[w.top.index(old)] = new     # w.top IS score_data for a list: the caller edits its list
+            else:
+                g.children[[id(x) for x in g.children].index(id(old))] = new
+                new.parent = g
+        w.parts[pi] = new
+        w.maps[pi] = m2
+        w.log.append("(HSetItem %s %s)" % (cz(pi), cqd(new_case["parts"][pi]["qd"])))
+    w.case = new_case
+
+
+def cqd(qd):
+    return clist([ctuple([cz(int(t)), cz(int(q))]) for t, q in qd])
+
+
+def coq_history(w):
+    """(initial state, ops, observations) of one world as a Coq term for check_hist."""
+    obs = [x for x in w.log if isinstance(x, tuple)]
+    ops = [x if isinstance(x, str) else "(HExport %s)" % cz(x[0]) for x in w.log]
+    return "(%s, %s, %s)" % (clist([cqd(q) for q in w.log0]), clist(ops),
+                             clist(["(%s, %s)" % (cz(o[1]), clist([cqd(q) for q in o[2]])) for o in obs]))
+
+
+def scribble(mf):
+    """Write into everything a returned MidiFile gives access to."""
+    import mido
+
+    for tr in mf.tracks:
+        for msg in tr:
+            msg.time += 5
+            if msg.type in ("note_on", "note_off"):
+                msg.note = (msg.note + 1) % 128
+                msg.channel = (msg.channel + 1) % 16
+            elif msg.type == "set_tempo":
+                msg.tempo += 1000
+            elif msg.type == "time_signature":
+                msg.numerator += 1
+            elif msg.type == "key_signature":
+                msg.key = "F#" if msg.key != "F#" else "C"
+        tr.insert(0, mido.MetaMessage("marker", text="x", time=3))
+    mf.tracks.append(mido.MidiTrack())
+    mf.ticks_per_beat += 1
+
+
+CFG_KEYS = ("mode", "velocity", "anacrusis", "minimum_ppq", "out", "zero_velocity_offs")
+
+
+class CpuTimeout(Exception):
+    pass
+
+
+class cpu_limit:
+    """Raise CpuTimeout when the block uses more than `secs` of this process's CPU time (not wall time)."""
+
+    def __init__(self, secs):
+        self.secs = secs
+
+    def _fire(self, *a):
+        raise CpuTimeout("no result after %d s of CPU time" % self.secs)
+
+    def __enter__(self):
+        import signal
+        self.old = signal.signal(signal.SIGVTALRM, self._fire)
+        signal.setitimer(signal.ITIMER_VIRTUAL, self.secs)
+
+    def __exit__(self, *a):
+        import signal
+        signal.setitimer(signal.ITIMER_VIRTUAL, 0)
+        signal.signal(signal.SIGVTALRM, self.old)
+        return False
+
+
+def drop_known(case, bad):
+    if case["mode"] == 2 and len(case["parts"]) >= 2:
+        return [b for b in bad if b[0] != "grouping"]  # C04-K1
+    return bad
+
+
+def observe_export(w, wi, op, workdir):
+    """save_score_midi on the live objects of world w, judged against the current description."""
+    case = json.loads(json.dumps(w.case))
+    for k in CFG_KEYS:
+        case[k] = op[k]
+    ck = dict(case.get("kinds") or {})
+    ck.update(op.get("ckinds") or {})
+    if ck:
+        case["kinds"] = ck
+    with cpu_limit(6):
+        mf, src, err = do_export(w.data, case, workdir, tag="_h%d_%d" % (wi, len(w.files)))
+    if err:
+        return [("export_raises", err)]
+    obs = {"ppq": int(mf.ticks_per_beat), "tracks": read_messages(mf)}
+    w.log.append((int(case["minimum_ppq"]), obs["ppq"], live_qds(w.data)))
+    observe_import(case, mf, src, obs, order=op.get("order", ("score", "zv", "perf")))
+    bad = drop_known(case, oracle(case, obs))
+    # the same call on objects freshly built from the current description
+    parts2, top2 = build(case)
+    mf2, _, err2 = do_export(make_data(case, parts2, top2), dict(case, out="none"), workdir)
+    if err2:
+        bad.append(("harness", "export of the freshly built current state: " + err2))
+    elif (int(mf2.ticks_per_beat), [sorted(absolute(tr)) for tr in read_messages(mf2)]) != (obs["ppq"], [sorted(absolute(tr)) for tr in obs["tracks"]]):
+        # (per track the same messages at the same ticks; the order inside a tick is judged by the oracle's reading)
+        t2 = read_messages(mf2)
+        where = next((i for i, (a, b) in enumerate(zip(obs["tracks"], t2)) if a != b), None)
+        bad.append(("fresh", "the file written for the edited objects differs from the file written for objects freshly built from the "
+                    "current state: ticks per quarter %d / %d, tracks %d / %d, first differing track %s"
+                    % (obs["ppq"], int(mf2.ticks_per_beat), len(obs["tracks"]), len(t2), where)))
+    w.files.append({"mf": mf, "src": src, "case": case, "dead": False})
+    return bad
+
+
+def observe_reimport(w, op):
+    """An earlier file read again (it must still hold what was written: nobody but the caller owns it)."""
+    import mido
+
+    live = [r for r in w.files if not r["dead"]]
+    if not live:
+        return None
+    rec = live[op["f"] % len(live)]
+    mf = rec["mf"] if not isinstance(rec["src"], str) else mido.MidiFile(rec["src"])
+    obs = {"ppq": int(mf.ticks_per_beat), "tracks": read_messages(mf)}
+    observe_import(rec["case"], mf, rec["src"], obs, order=op.get("order", ("perf", "score", "zv")))
+    return drop_known(rec["case"], oracle(rec["case"], obs))
+
+
+def run_history(h, workdir, trace=None, keep=None):
+    """Replays a history {'worlds': [descriptions], 'ops': [...]}.  Returns the failures of the first
+    failing observation as (op index, [(kind, message)]) or None."""
+    worlds = [World(c) for c in h["worlds"]]
+    if keep is not None:
+        keep.extend(worlds)
+    for i, op in enumerate(h["ops"]):
+        wi = op.get("w", 0)
+        if wi >= len(worlds):
+            continue
+        w = worlds[wi]
+        kind = op["op"]
+        bad = None
+        if kind == "export":
+            if op["anacrusis"] == "time_sig_change" and w.case.get("no_tsc"):
+                continue
+            bad = observe_export(w, wi, op, workdir)
+        elif kind == "reimport":
+            bad = observe_reimport(w, op)
+        elif kind == "scribble":
+            live = [r for r in w.files if not r["dead"] and r["case"]["out"] == "none"]
+            if live:
+                rec = live[op["f"] % len(live)]
+                scribble(rec["mf"])
+                rec["dead"] = True
+        else:
+            new = edit_desc(w.case, op)
+            if new is None:
+                continue
+            edit_live(w, op, new)
+        if trace is not None:
+            trace.append((i, op, bad))
+        if bad:
+            return i, bad
+    return None
+
+
+def gen_edit(rng, case):
+    """One edit op that applies to the description (or None)."""
+    for _ in range(8):
+        pi = rng.randrange(len(case["parts"]))
+        ps = case["parts"][pi]
+        kind = rng.choice(["voice", "voice", "pitch", "pitch", "remove", "add", "add", "untie", "untie", "ksig", "tempo",
+                           "qd_end", "qd_end", "qd_scale", "replace", "replace"])
+        op = {"op": kind, "p": pi}
+        pool = [48 + 12 * pi + x for x in (0, 2, 4, 5, 7, 9, 11, 1, 3)]
+        if kind == "voice":
+            op.update(n=rng.randrange(64), v=rng.choice([1, 2, 3, 4, 5]))
+        elif kind == "pitch":
+            op.update(n=rng.randrange(64), pitch=rng.choice(pool + [rng.randint(21, 108)]))
+        elif kind == "remove":
+            op.update(n=rng.randrange(64))
+        elif kind == "add":
+            op.update(src=rng.randrange(64), pitch=rng.choice(pool + [rng.randint(21, 108)]), v=rng.choice([1, 2, 3, 6]))
+        elif kind == "untie":
+            ties = [k for k, n in enumerate(ps["notes"]) if len(n["durs"]) > 1]
+            if not ties:
+                continue
+            op.update(n=rng.choice(ties), j=rng.randrange(4))
+        elif kind == "ksig":
+            op.update(i=rng.randrange(4), f=rng.randint(-7, 7), m=rng.choice(["major", "minor"]))
+        elif kind == "tempo":
+            op.update(i=rng.randrange(4), bpm=rng.choice(BPMS))
+        elif kind == "qd_end":
+            op.update(q=rng.choice(HQ))
+        elif kind == "qd_scale":
+            d0 = ps["qd"][0][1]
+            op.update(q=rng.choice([2 * d0, 3 * d0, 2 * d0] + ([d0 // 2] if d0 % 2 == 0 else [])))
+        else:
+            subs = []
+            for _ in range(rng.randint(1, 3)):
+                sk = rng.choice(["pitch", "pitch", "remove", "voice", "add"])
+                sub = {"op": sk, "n": rng.randrange(64)}
+                if sk == "pitch":
+                    sub["pitch"] = rng.choice(pool)
+                elif sk == "voice":
+                    sub["v"] = rng.choice([1, 2, 3])
+                elif sk == "add":
+                    sub.update(src=rng.randrange(64), pitch=rng.choice(pool), v=rng.choice([1, 2]))
+                subs.append(sub)
+            op["edits"] = subs
+        new = edit_desc(case, op)
+        if new is not None and json.dumps(new, sort_keys=True) != json.dumps(case, sort_keys=True):
+            return op, new
+    return None, case
+
+
+def gen_cfg(rng, case):
+    an = rng.choice(ANACRUSIS)
+    if case.get("no_tsc") and an == "time_sig_change":
+        an = rng.choice(["shift", "pad_bar"])
+    cfg = {"mode": rng.randint(0, 5), "velocity": rng.choice(VELS), "anacrusis": an, "minimum_ppq": rng.choice(MINPPQ),
+           "out": rng.choice(["none"] * 5 + ["path"] * 2 + ["fileobj"]), "zero_velocity_offs": rng.random() < 0.2}
+    if rng.random() < 0.4:
+        cfg["ckinds"] = {"mode": rng.choice(K_CFG), "velocity": rng.choice(K_CFG), "minimum_ppq": rng.choice(K_MIN)}
+    order = ["score", "zv", "perf"]
+    rng.shuffle(order)
+    cfg["order"] = order
+    return cfg
+
+
+def gen_history(rng):
+    base = gen_case(rng, 1, strict=True)
+    if rng.random() < 0.5:
+        base["kinds"] = {"div": rng.choice(K_DIV), "t": rng.choice(K_T), "voice": rng.choice(["int", "int64", "int8"])}
+    sims = [base]
+    if rng.random() < 0.55:
+        if rng.random() < 0.6:
+            # a sibling: the same score (same ids, same sizes) after a few edits
+            sib = json.loads(json.dumps(base))
+            for _ in range(rng.randint(1, 3)):
+                _, sib = gen_edit(rng, sib)
+            sib.pop("detached", None)
+            if rng.random() < 0.5:
+                sib.pop("kinds", None)
+            sims.append(sib)
+        else:
+            sims.append(gen_case(rng, 1, strict=True))
+    worlds = [json.loads(json.dumps(c)) for c in sims]
+    ops = []
+    last_cfg = [None] * len(sims)
+
+    def export(wi, same=False):
+        cfg = last_cfg[wi] if (same and last_cfg[wi]) else gen_cfg(rng, sims[wi])
+        if cfg["anacrusis"] == "time_sig_change" and sims[wi].get("no_tsc"):
+            cfg = dict(cfg, anacrusis="shift")
+        last_cfg[wi] = cfg
+        ops.append(dict(cfg, op="export", w=wi))
+
+    order = list(range(len(sims)))
+    rng.shuffle(order)
+    for wi in order:
+        export(wi)
+    for _ in range(rng.randint(3, 5)):
+        wi = rng.randrange(len(sims))
+        r = rng.random()
+        if r < 0.12:
+            ops.append({"op": "scribble", "w": wi, "f": rng.randrange(8)})
+            export(wi, same=True)
+            continue
+        if r < 0.22:
+            o = ["score", "zv", "perf"]
+            rng.shuffle(o)
+            ops.append({"op": "reimport", "w": wi, "f": rng.randrange(8), "order": o})
+            continue
+        for _ in range(rng.choice([1, 1, 2])):
+            op, new = gen_edit(rng, sims[wi])
+            if op is not None:
+                ops.append(dict(op, w=wi))
+                sims[wi] = new
+        export(wi, same=rng.random() < 0.5)
+        if len(sims) > 1 and rng.random() < 0.5:
+            export(1 - wi, same=rng.random() < 0.7)   # the other world, untouched, right after
+    return {"worlds": worlds, "ops": ops}
+
+
+def shrink_history(h, kinds, workdir):
+    def fails(ops):
+        try:
+            r = run_history({"worlds": h["worlds"], "ops": ops}, workdir)
+        except Exception:  # noqa
+            return False
+        return r is not None and sorted({k for k, _ in r[1]}) == kinds
+
+    ops = core.ddmin(h["ops"], fails)
+    worlds = h["worlds"]
+    if len(worlds) > 1 and not any(o.get("w", 0) == 1 for o in ops):
+        worlds = worlds[:1]
+    return {"worlds": worlds, "ops": ops}
+
+
+def reproduces_fresh(h, kinds, workdir):
+    """Does the history fail the same way in a NEW process (no module-level state of this run)?"""
+    import subprocess
+    import sys
+
+    path = os.path.join(workdir, "hist_verify_%d.json" % os.getpid())
+    with open(path, "w") as f:
+        json.dump(h, f)
+    here = os.path.dirname(os.path.abspath(__file__))
+    code = ("import sys, json, warnings; sys.path.insert(0, %r); sys.path.insert(0, %r); import core; core.setup_import_path(); "
+            "warnings.filterwarnings('ignore'); import c04; r = c04.run_history(json.load(open(%r)), %r); "
+            "print('KINDS=' + json.dumps(sorted({k for k, _ in r[1]}) if r else None))" % (os.path.dirname(here), here, path, workdir))
+    try:
+        out = subprocess.run([sys.executable, "-c", code], capture_output=True, text=True, env=dict(os.environ, PYTHONPATH=core.REPO)).stdout
+    except Exception:  # noqa
+        return False
+    return ("KINDS=" + json.dumps(kinds)) in out
+
+
+def stage_history(ctx, n, workdir, terms, term_hist):
+    found = 0
+    for _ in range(n):
+        if found >= 4:
+            break  # (a change that makes calls hang costs CPU seconds per observation)
+        h = gen_history(ctx.rng)
+        trace = []
+        worlds = []
+        try:
+            r = run_history(h, workdir, trace, worlds)
+        except Exception as e:  # noqa
+            import traceback
+            r = (-1, [("harness", "harness raised %s\n%s" % (e, traceback.format_exc()[-800:]))])
+        ctx.evaluations += 1
+        ctx.count("history")
+        ctx.count("history:worlds=%d" % len(h["worlds"]))
+        for _, op, _ in trace:
+            ctx.count("history op:" + op["op"])
+            if op["op"] == "export" and op.get("ckinds"):
+                ctx.count("history op:export with numpy / float configuration scalars")
+        if any(c.get("kinds") for c in h["worlds"]):
+            ctx.count("history:numpy scalar kinds in the score")
+        if sum(1 for _, op, _ in trace if op["op"] == "export") >= 2 and any(op["op"] not in ("export", "reimport") for _, op, _ in trace):
+            ctx.nontrivial("history:" + json.dumps(h, sort_keys=True))
+        if r is None:
+            for w in worlds:
+                if any(isinstance(x, tuple) for x in w.log):
+                    terms.append(coq_history(w))
+                    term_hist.append(h)
+                    if any(isinstance(x, str) for x in w.log):
+                        ctx.count("history: quarter durations edited between exports (Coq machine)")
+        if r is not None:
+            i, bad = r
+            kinds = sorted({k for k, _ in bad})
+            if found < 4:
+                small = h
+                note = None
+                if found < 2 and not kinds[0].startswith("harness"):
+                    prefix = {"worlds": h["worlds"], "ops": h["ops"][:i + 1]}
+                    small = shrink_history(prefix, kinds, workdir)
+                    # state kept at module level by earlier calls of this run makes shorter histories fail here
+                    # that pass in a new process: store a history that fails on its own
+                    if not reproduces_fresh(small, kinds, workdir):
+                        small = prefix
+                        if not reproduces_fresh(small, kinds, workdir):
+                            note = ("fails only after the earlier histories of this run (state kept at module level between calls); "
+                                    "replay with the same VERIF_SEED to reproduce")
+                ctx.violation("C04 history (call, edit, call again) fails at op %d %s: " % (i, json.dumps(h["ops"][i])[:200] if i >= 0 else "")
+                              + "; ".join("%s: %s" % b for b in bad[:3])[:1300],
+                              dict({"kind": "history", "worlds": small["worlds"], "ops": small["ops"], "kinds": kinds,
+                                    "failures": [list(b) for b in bad[:5]]}, **({"note": note} if note else {})))
+                found += 1
+    return found
+
+
 def is_nontrivial(case):
     ppq, ftp, an, tk = expectation(case)
     for pi, ps in enumerate(case["parts"]):
@@ -1079,7 +1724,7 @@ def run(ctx):
                        "a grace note never has the pitch of a note sounding across its onset in the same track and channel (it may sit on either end of one)",
                        "MIDI channel numbers stay below 16 (at most 3 voices / parts per track)"]
     register_known(ctx)
-    ok, why = ctx.coq_props(expect_min=34)
+    ok, why = ctx.coq_props(expect_min=41)
     ctx.log("proofs checked: %s" % ("ok" if ok else why[:200]))
     n = {"quick": 260, "thorough": 4500}.get(ctx.tier, 260)
     cases = corpus_cases()
@@ -1184,6 +1829,9 @@ def run(ctx):
         if len(ctx.samples) < 2:
             ctx.sample({"case": case, "observed_ppq": obs["ppq"], "tracks": len(obs["tracks"])})
     ctx.log("implementation and oracle ran on %d cases" % len(cases))
+    hterms, hhist = [], []
+    found += stage_history(ctx, {"quick": 60, "thorough": 500}.get(ctx.tier, 60), fdir, hterms, hhist)
+    ctx.log("history stream done (%d worlds for the Coq history machine)" % len(hterms))
     if not ok:
         if not found:
             ctx.violation("proof obligations of Props/C04.v no longer check: " + why, {"theorem_or_build": why}, no_input=True)
@@ -1217,6 +1865,25 @@ def run(ctx):
             if reported < 6:
                 ctx.violation("model and implementation disagree (%s)" % name, {"case": kept[i], "kinds": ["correspondence:" + name]})
                 reported += 1
+    history_correspondence(ctx, hterms, hhist)
+
+
+def history_correspondence(ctx, hterms, hhist):
+    what = ("history machine (Model/C04_hist.v: set_qd = Part.set_quarter_duration on the lists, score[i] = part, model_ppq of the CURRENT "
+            "lists at every export) = ticks_per_beat of every file and quarter_durations() of every part at every export, on %d worlds"
+            % len(hterms))
+    try:
+        failing = ctx.coq_failing("history", "From PV Require Import Model.C04 Model.C04_hist.", "", hterms,
+                                  "fun c => match c with (st, ops, obs) => check_hist st ops obs end", shard=SHARD)
+    except RuntimeError as e:
+        ctx.obligation("correspondence: " + what, False, str(e)[-1500:])
+        ctx.violation("Coq rejected the history terms: %s" % str(e)[-600:], {"kinds": ["harness"]}, no_input=True)
+        return
+    ctx.obligation("correspondence: " + what, not failing, failing[:5])
+    for i in failing[:2]:
+        ctx.violation("history machine and implementation disagree (quarter durations / ticks per quarter after a history)",
+                      {"kind": "history", "worlds": hhist[i]["worlds"], "ops": hhist[i]["ops"], "kinds": ["correspondence:history"],
+                       "coq_term": hterms[i][:3000]})
 
 
 def corpus_cases():
@@ -1232,6 +1899,21 @@ def corpus_cases():
 
 def replay(obj):
     r = obj.get("replay", obj)
+    if r.get("kind") == "history":
+        wd = os.path.join(core.WORKROOT, "C04_replay")
+        os.makedirs(wd, exist_ok=True)
+        trace = []
+        res = run_history(r, wd, trace)
+        for i, c in enumerate(r["worlds"]):
+            print("world %d:" % i, json.dumps(c))
+        for i, op, bad in trace:
+            print("op %d: %s" % (i, json.dumps(op)))
+            for k, m in bad or []:
+                print("   FAIL", k, m)
+        print("result:", "all observations agree with the current state" if res is None else "op %d fails" % res[0])
+        import shutil
+        shutil.rmtree(wd, ignore_errors=True)
+        return 0
     case = r.get("case")
     if not case:
         print(json.dumps(obj, indent=1))
